@@ -458,7 +458,18 @@ pub fn explore<const N: usize>(c: &Cfg, seeds: &[Vec<VOp>]) -> RunOut {
                             let mut scratch = BTreeMap::new();
                             let (g0, clean0, _) = replay_hist::<N>(c, hist, &mut scratch);
                             for op in ops_ref {
-                                let Ok(mut g1) = guarded(|| g0.clone()) else { continue };
+                                // a state whose history stayed within the limits is continued on a verified-exact
+                                // copy (or rebuilt from scratch), so that a defect of clone() is not blamed on the
+                                // call made next; damaged objects are simply cloned (the sanitizer watches)
+                                let g1 = if clean0.is_some() {
+                                    match crate::real::exact_copy(&g0) {
+                                        Some(g) => Ok(g),
+                                        None => Ok(replay_hist::<N>(c, hist, &mut scratch).0),
+                                    }
+                                } else {
+                                    guarded(|| g0.clone())
+                                };
+                                let Ok(mut g1) = g1 else { continue };
                                 let (f, clean1) = call(&mut g1, clean0.clone(), op, &mut counters);
                                 let mut h = hist.clone();
                                 h.push(*op);
